@@ -224,6 +224,8 @@ type Client struct {
 	rd     *bufio.Reader
 	ID     string
 	Closed bool
+	// PendingPong counts PINGRESPs of earlier probes that are still in the stream (skipped by the next Barrier)
+	PendingPong int
 }
 
 // Attach creates a connection and hands its server end to the broker.
@@ -266,6 +268,27 @@ func (c *Client) Barrier(timeout time.Duration) ([]mqtt.Message, error) {
 			if os.IsTimeout(err) || strings.Contains(err.Error(), "deadline") {
 				return out, ErrTimeout
 			}
+			return out, err
+		}
+		if m.Type() == mqtt.TypeOfPingresp {
+			if c.PendingPong > 0 {
+				c.PendingPong--
+				continue
+			}
+			return out, nil
+		}
+		out = append(out, m)
+	}
+}
+
+// Barrier0 reads until the next PINGRESP without sending a PINGREQ.
+func (c *Client) Barrier0(timeout time.Duration) ([]mqtt.Message, error) {
+	var out []mqtt.Message
+	c.C.SetReadDeadline(time.Now().Add(timeout))
+	defer c.C.SetReadDeadline(time.Time{})
+	for {
+		m, err := mqtt.DecodePacket(c.rd, 1<<20)
+		if err != nil {
 			return out, err
 		}
 		if m.Type() == mqtt.TypeOfPingresp {
